@@ -545,6 +545,7 @@ type SolveResult struct {
 	TimeS   float64
 	Output  string
 	Tried   []string
+	SatSMT  string // the (case-split) query that was found satisfiable, when it differs from the whole query
 }
 
 var solverCmds = []struct {
@@ -742,6 +743,9 @@ func solveAdaptive(file string, smt string, tmo int, mode string) SolveResult {
 			st, _, el := runOne(first.name, first.argv(f, short), short)
 			os.Remove(f)
 			total += el
+			if st == "sat" {
+				res.SatSMT = q
+			}
 			if st == "unsat" || st == "sat" {
 				return st
 			}
